@@ -147,14 +147,41 @@ def run_concrete(u, sk, seed=0, sizes=None, values=None, numbers=None, positions
         return None
 
     W = ConcWorld(sizes=sizes, seed=seed, fill=fill if (values or numbers) else None, default_size=None, positions=positions, subsets=subsets)
+
+    def failed(W_):
+        fs = getattr(W_, "failures", [])
+        return {"status": "fail", "obligation": fs[0][0], "detail": fs[0][1], "all_failures": fs[:40], "seed": seed, "inputs": W_.inputs, "sizes": W_.used_sizes()}
+
     try:
-        u.run(W, sk)
+        try:
+            u.run(W, sk)
+        except ContractViolation:
+            raise
+        except core.PathInfeasible:
+            raise
+        except Exception:
+            # an exception *after* a clause has failed is a consequence of that failure (the unit went on with a
+            # result that is not what it should be): report the failed clauses
+            if getattr(W, "failures", None):
+                return failed(W)
+            raise
+        if getattr(W, "failures", None):
+            return failed(W)
         checked = W.checked
         # the same scenario once more in the same process: state that survives a call (mutable default arguments,
         # module-level caches, memoised names) makes the second run differ from the first
         W = ConcWorld(sizes=sizes, seed=seed, fill=fill if (values or numbers) else None, default_size=None, positions=positions, subsets=subsets)
         W.inputs["history"] = "second run of the same scenario in the same process"
-        u.run(W, sk)
+        try:
+            u.run(W, sk)
+        except (ContractViolation, core.PathInfeasible):
+            raise
+        except Exception:
+            if getattr(W, "failures", None):
+                return failed(W)
+            raise
+        if getattr(W, "failures", None):
+            return failed(W)
         return {"status": "pass", "checked": checked, "inputs": None}
     except ContractViolation as v:
         return {"status": "fail", "obligation": v.name, "detail": v.detail, "seed": seed, "inputs": W.inputs, "sizes": W.used_sizes()}
@@ -225,6 +252,17 @@ def is_clause(prop, unit, obname, kind):
     if spec is None or set(unit.props) <= set(CROSS_CUTTING):
         return True
     return kind in spec["kinds"] or any(t in obname for t in spec["substr"])
+
+
+def clause_failure(prop, unit, cf):
+    """of the clauses that failed in a concrete run, the first one that is a clause of this property (or None)"""
+    fs = cf.get("all_failures") or [(cf["obligation"], cf.get("detail", ""))]
+    for nm, det in fs:
+        if is_clause(prop, unit, nm, "concrete"):
+            c = dict(cf)
+            c["obligation"], c["detail"] = nm, det
+            return c
+    return None
 
 
 def match_finding(findings, prop, uname, obname, sk):
@@ -328,12 +366,14 @@ def check_property(prop, tier="quick", seed=0, only_unit=None, jobs=None, verbos
             bounded["contract_clauses_evaluated"] += res.get("bounded_checked", 0)
             bounded["units"].add(u.name)
             if res.get("conc_fail"):
-                cf = res["conc_fail"]
+                cf0 = res["conc_fail"]
+                cf = clause_failure(prop, u, cf0)
+                if cf is None:
+                    context_fail.append((res["unit"], cf0["obligation"]))
+                    continue
                 f = match_finding(findings, prop, res["unit"], cf["obligation"], res["skeleton"])
                 if f:
                     known_hits.append((f, res["unit"], cf["obligation"], res["skeleton"]))
-                elif not is_clause(prop, u, cf["obligation"], "bounded"):
-                    context_fail.append((res["unit"], cf["obligation"]))
                 else:
                     bounded_fail.append((res["unit"], res["skeleton"], cf))
             continue
@@ -382,19 +422,21 @@ def check_property(prop, tier="quick", seed=0, only_unit=None, jobs=None, verbos
                     undecided.append((res["unit"], res["skeleton"], f"undecided obligation {o['name']}", res.get("conc_fail")))
             if len(samples) < 6 and o["status"] == "proved" and o["backend"] != "ground":
                 samples.append({"unit": res["unit"], "skeleton": res["skeleton"], "obligation": o["name"], "path": o["path"], "status": o["status"], "backend": o["backend"]})
-        if res.get("conc_fail") and not res["unsupported"] and not any(o["status"] in ("refuted", "undecided") for o in res["obligations"]):
+        if res.get("conc_fail") and not res["unsupported"] and not any(o["status"] in ("refuted", "undecided") and o["kind"] != "cover" and is_clause(prop, u, o["name"], o["kind"]) for o in res["obligations"]):
             # proved symbolically but the same contract fires on the real code for a concrete input: the input is a
             # demonstrated violation (reported as such); that the symbolic run did not see it means the value model
             # under-approximates this code path (reported as well, so that it gets repaired)
-            cf = res["conc_fail"]
-            f = match_finding(findings, prop, res["unit"], cf["obligation"], res["skeleton"])
-            if f:
-                known_hits.append((f, res["unit"], cf["obligation"], res["skeleton"]))
-            elif not is_clause(prop, u, cf["obligation"], "concrete"):
-                context_fail.append((res["unit"], cf["obligation"]))
+            cf0 = res["conc_fail"]
+            cf = clause_failure(prop, u, cf0)
+            if cf is None:
+                context_fail.append((res["unit"], cf0["obligation"]))
             else:
-                bounded_fail.append((res["unit"], res["skeleton"], cf))
-                model_gaps.append((res["unit"], res["skeleton"], cf["obligation"]))
+                f = match_finding(findings, prop, res["unit"], cf["obligation"], res["skeleton"])
+                if f:
+                    known_hits.append((f, res["unit"], cf["obligation"], res["skeleton"]))
+                else:
+                    bounded_fail.append((res["unit"], res["skeleton"], cf))
+                    model_gaps.append((res["unit"], res["skeleton"], cf["obligation"]))
     if not samples:
         for res in results:
             for o in res["obligations"][:2]:
@@ -425,12 +467,14 @@ def check_property(prop, tier="quick", seed=0, only_unit=None, jobs=None, verbos
     # a concrete failure found while an obligation was undecided is a demonstrated violation
     for uname, sk, why, cf in undecided:
         if cf:
+            cf0 = cf
+            cf = clause_failure(prop, units.UNITS[uname], cf0)
+            if cf is None:
+                context_fail.append((uname, cf0["obligation"]))
+                continue
             f = match_finding(findings, prop, uname, cf["obligation"], sk)
             if f:
                 known_hits.append((f, uname, cf["obligation"], sk))
-                continue
-            if not is_clause(prop, units.UNITS[uname], cf["obligation"], "concrete"):
-                context_fail.append((uname, cf["obligation"]))
                 continue
             path = os.path.join(REPLAYS, f"{prop}_{uname}_{abs(hash(sk_id(sk))) % 10**8}.json")
             json.dump({"property": prop, "unit": uname, "skeleton": sk, "obligation": cf["obligation"], "why": why, "failing_input": cf, "verifier_output": why}, open(path, "w"), indent=1)
